@@ -78,6 +78,8 @@ type Emit struct {
 	WForm int
 	// Pipe lists plain functions applied as pipeline stages before the writer: {{v|f|g}}
 	Pipe []string
+	// More lists further arguments of a safe writer in prefix / call form: {{w: v, a, b}}
+	More []Expr
 }
 type Assign struct {
 	Decl  bool // := (true) or = (false)
@@ -212,6 +214,7 @@ type Printer struct {
 	L, R   string // action delimiters
 	Full   bool   // fully parenthesise binary/ternary expressions
 	Tight  bool   // no spaces around binary operators
+	Words  bool   // spell && / || / ! as and / or / not
 	Pad    string // padding inside delimiters ("" or " ")
 	pos    map[interface{}]Pos
 	b      strings.Builder
@@ -332,7 +335,13 @@ func (p *Printer) stmt(s Stmt) {
 				src += " | " + s.Writer
 			case 1:
 				src = s.Writer + ": " + src
+				for _, m := range s.More {
+					src += ", " + p.Expr(m)
+				}
 			case 2:
+				for _, m := range s.More {
+					src += ", " + p.Expr(m)
+				}
 				src = s.Writer + "(" + src + ")"
 			}
 		}
@@ -559,12 +568,15 @@ func (p *Printer) Expr(e Expr) string {
 		case "not":
 			return "not " + p.sub(e.X, 9)
 		default:
+			if p.Words {
+				return "not " + p.sub(e.X, 9)
+			}
 			return "!" + p.sub(e.X, 9)
 		}
 	case *Bin:
 		pr := prec(e)
 		op := e.Op
-		if e.Word {
+		if e.Word || p.Words {
 			if op == "&&" {
 				op = "and"
 			} else if op == "||" {
@@ -573,7 +585,7 @@ func (p *Printer) Expr(e Expr) string {
 		}
 		l := p.sub(e.L, pr)      // left-associative: same level on the left needs no parentheses
 		r := p.sub(e.R, pr+1)    // same level on the right does
-		if p.Tight && !e.Word {
+		if p.Tight && !e.Word && !p.Words {
 			return l + op + r
 		}
 		return l + " " + op + " " + r
